@@ -25,7 +25,7 @@ func (c *Case) ID() string {
 	return fmt.Sprintf("%s[%s] fault=%s@%d", c.Wrapper, c.Nodes, c.Fault, c.At)
 }
 
-var wrappers = []string{"flat", "for", "if", "with", "autoescape", "ifchanged", "spaceless", "filter", "filter-length", "for-filter-length", "include", "include-lazy", "macro", "extends", "for-include", "ssi-parsed", "for-empty", "for-reversed", "ifequal", "block", "import-macro", "if-elif", "extends-own-options", "extends-2-own-options"}
+var wrappers = []string{"flat", "for", "if", "with", "autoescape", "ifchanged", "spaceless", "filter", "filter-length", "for-filter-length", "include", "include-lazy", "macro", "extends", "for-include", "ssi-parsed", "for-empty", "for-reversed", "ifequal", "block", "import-macro", "if-elif", "extends-own-options", "extends-2-own-options", "macro-reads-set", "ifchanged-gap", "for-macro-reads-loop"}
 
 // build returns the file set, the name of the entry file and the expected fault-free output.
 func build(wrapper, nodes string) (files map[string]string, expected string, ticks int) {
@@ -142,6 +142,19 @@ func build(wrapper, nodes string) (files map[string]string, expected string, tic
 		} else {
 			expected = "<" + render() + "|d>"
 		}
+	case "macro-reads-set":
+		// a macro whose body reads a name that is set again between two calls
+		files["/main"] = "{% set z = \"a\" %}{% macro m() %}" + b + "[{{ z }}]{% endmacro %}X{{ m() }}{% set z = \"b\" %}Y{{ m() }}"
+		expected = "X" + render() + "[a]Y"
+		expected += render() + "[b]"
+	case "for-macro-reads-loop":
+		files["/main"] = "{% for i in two %}{% macro m() %}<{{ i }}>" + b + "{% endmacro %}{{ m() }}{% endfor %}"
+		expected = "<1>" + render()
+		expected += "<2>" + render()
+	case "ifchanged-gap":
+		// the compared content is the same text, then empty, then the same text again
+		files["/main"] = "{% for i in gap %}{% ifchanged %}{% if i %}<same>{% endif %}{% endifchanged %};{% endfor %}" + b
+		expected = "<same>;;<same>;" + render()
 	case "extends":
 		files["/base"] = "<{% block c %}base{% endblock %}>"
 		files["/main"] = "{% extends \"base\" %}{% block c %}" + b + "{% endblock %}"
@@ -222,7 +235,7 @@ func (c *Case) Exec(t *eng.T) {
 	mkctx = func() pongo2.Context {
 		n := 0
 		return pongo2.Context{
-			"two": []int{1, 2}, "yes": true, "incname": "inc",
+			"two": []int{1, 2}, "yes": true, "incname": "inc", "gap": []int{1, 0, 1},
 			"tick": func() (*pongo2.Value, error) {
 				n++
 				if c.Fault == "tick" && n == c.At {
@@ -307,6 +320,28 @@ func (c *Case) Exec(t *eng.T) {
 			t.Fail(key0(c, "partial-write:stringwriter"), "%s: ExecuteWriter wrote %q (%d calls) to a caller writer offering WriteString although execution failed", c.ID(), sw.b.String(), sw.calls)
 		case !wantFail && (err != nil || sw.b.String() != expected):
 			t.Fail(key0(c, "wrong-output:stringwriter"), "%s: ExecuteWriter(writer with WriteString) gave %q, %v; want %q", c.ID(), sw.b.String(), err, expected)
+		}
+	}
+	// the four entry points one after the other on ONE compiled template (fault-free runs): still the same bytes
+	if c.Fault == "none" {
+		if shared := fresh(); shared != nil {
+			var outs [4]string
+			var errs [4]error
+			outs[0], errs[0] = shared.Execute(mkctx())
+			var bb []byte
+			bb, errs[1] = shared.ExecuteBytes(mkctx())
+			outs[1] = string(bb)
+			w2, w3 := &faultWriter{}, &faultWriter{}
+			errs[2] = shared.ExecuteWriter(mkctx(), w2)
+			outs[2] = string(w2.buf)
+			errs[3] = shared.ExecuteWriterUnbuffered(mkctx(), w3)
+			outs[3] = string(w3.buf)
+			for i, n := range []string{"Execute", "ExecuteBytes", "ExecuteWriter", "ExecuteWriterUnbuffered"} {
+				if errs[i] != nil || outs[i] != expected {
+					t.Fail(key0(c, "shared-template:"+n), "%s: called as number %d on one compiled template, %s gives %s (%v), want %s", c.ID(), i+1, n, head(outs[i]), errs[i], head(expected))
+					break
+				}
+			}
 		}
 	}
 	t.Outcome(fmt.Sprintf("%v|%q|%q|%q|%q", wantFail, rs[0].out, rs[1].out, rs[2].out, rs[3].out))
